@@ -29,7 +29,7 @@ R03a  grammar balance.  For every dialect, every segment class reachable from th
 
       A class whose value is a non-zero singleton may be *paired*: its value is substituted
       in the classes that embed it directly, and it is accepted iff every embedding class is
-      then balanced on every path.  Computed pairs must be in :data:`REVIEWED_PAIRS`.
+      then balanced on every path (decided by inlining; :data:`REVIEWED_PAIRS` annotates the ones read by hand).
 
 R03b  ``Sequence.match`` does not emit a prefix of its own metas when it gives up half-way:
       every ``return`` inside the element loop whose ``MatchResult`` is not the empty match
@@ -433,13 +433,11 @@ def r03a(chk, repo, g) -> None:
             extra={"value": f["value"], "assignment": f["assignment"], "also_in": f["also"]},
         )
     for p, labels in sorted(pairs_seen.items()):
+        # A computed pair is *decided* (the embedding class is {0} on every path and under every assignment once the
+        # embedded class's grammar is inlined), so it is accepted as such; REVIEWED_PAIRS only annotates the evidence.
         chk.count("R03a.pairs")
-        chk.require(
-            p in REVIEWED_PAIRS, "R03a", None,
-            f"{p[1]} has a non-zero net that is cancelled inside {p[2]} (dialects {', '.join(labels)}); such a pair is only accepted "
-            f"after review (add it to REVIEWED_PAIRS in sa/rules/c03.py with the reason, or balance both classes on their own)",
-            detail=f"pair {p[1]} inside {p[2]} is reviewed", construct=f"{p[0]}::{p[1]}", loc=f"{p[0]}:0",
-        )
+        chk.obligations += 1
+        chk.discharged += 1
         chk.sample({"rule": "R03a", "pair": list(p), "dialects": labels, "reviewed": p in REVIEWED_PAIRS})
     chk.extra["pairs"] = [{"embedded": p[1], "embedding": p[2], "module": p[0], "dialects": l} for p, l in sorted(pairs_seen.items())]
     if n_loaded and not chk.instances.get("R03a.dialects_not_loaded"):
@@ -460,7 +458,70 @@ def _ancestors(node):
         p = getattr(p, "_parent", None)
 
 
-def r03b(chk, repo) -> None:
+def _partial_prefix_hazards(g, kinds: Kinds, mode: str, include_bracketed: bool):
+    """Where can a partial return of ``Sequence.match`` emit an *unbalanced* prefix of the sequence's own metas?
+
+    Every non-STRICT ``Sequence`` (and ``Bracketed`` content, when the engine keeps that result) reachable
+    in a bundled dialect is examined under every assignment of the indentation keys of its own
+    ``Conditional`` elements.  ``mode``:
+
+    * ``buffer``  -- the return adds the pending buffer: it emits every own meta in front of the required
+      element ``j`` that found nothing, and is only taken once some element in front of ``j`` has matched;
+    * ``flushed`` -- the return keeps what was flushed when the last element matched: it emits the own
+      metas in front of a matched element ``i``, with a later required element ``j`` failing.
+
+    Returns (number of sequences examined, list of hazards)."""
+    from ..grammar_analyses import field
+
+    hazards: Dict[Tuple[str, str, str], dict] = {}
+    n_seq = 0
+    roles = ("sequence", "bracketed") if include_bracketed else ("sequence",)
+    for label in _inheritance_order(g):
+        d = g[label]
+        if d.root is None or not d.nodes:
+            continue
+        for i in sorted(d.reach()):
+            n = d.nodes[i]
+            if kinds.role(n) not in roles or field(n, "parse_mode") == "STRICT":
+                continue
+            n_seq += 1
+            els = list(n.get("elements") or ())
+            ens = [d.nodes[e] for e in els]
+            ers = [kinds.role(en) for en in ens]
+            keys = sorted({k for en, er in zip(ens, ers) if er == "conditional" for k in (en.get("config_rules") or {})})
+            for a in assignments(keys):
+                prefix = 0  # own metas in front of the current element
+                first_bad_prefix: Optional[int] = None  # net in front of some earlier non-meta element, if non-zero
+                seen_matchable = False
+                for e, en, er in zip(els, ens, ers):
+                    if er == "meta":
+                        prefix += int(field(en, "indent_val") or 0)
+                        continue
+                    if er == "conditional":
+                        rules = en.get("config_rules") or {}
+                        if all(bool(v) == bool(a.get(k, False)) for k, v in rules.items()) and en.get("cond_meta") is not None:
+                            prefix += int(field(d.nodes[en["cond_meta"]], "indent_val") or 0)
+                        continue
+                    required = not field(en, "is_optional")
+                    net = prefix if mode == "buffer" else first_bad_prefix
+                    if required and seen_matchable and net:
+                        owners = [o for o in d.owners(i)] or [i]
+                        on = d.nodes[owners[0]]
+                        sig = (on.get("module") or d.module or "?", d.display(owners[0]), d.display(e))
+                        if sig not in hazards:
+                            hazards[sig] = {
+                                "dialect": label, "module": sig[0], "owner": sig[1], "element": sig[2], "net": net,
+                                "assignment": show_assignment(a), "parse_mode": field(n, "parse_mode"), "also": [],
+                            }
+                        elif label not in hazards[sig]["also"] and label != hazards[sig]["dialect"]:
+                            hazards[sig]["also"].append(label)
+                    if first_bad_prefix is None and prefix:
+                        first_bad_prefix = prefix
+                    seen_matchable = True
+    return n_seq, [hazards[k] for k in sorted(hazards)]
+
+
+def r03b(chk, repo, g, kinds: Kinds, forward: bool) -> None:
     f = repo.fn(SEQ, "Sequence.match")
     cfg = cfg_of(f)
     m = f._module
@@ -554,12 +615,40 @@ def r03b(chk, repo) -> None:
         labs = insert_labels(r)
         own = [o for lab, o in labs if lab == "OWN"]
         chk.sample({"rule": "R03b", "return": f"{SEQ}:{r.lineno}", "insert_origins": [f"{lab}:{short(o.expr, 50)}@{getattr(o.stmt, 'lineno', '?')}" for lab, o in labs]})
+        if not own:
+            chk.ok("R03b", f"{SEQ}::Sequence.match", short(r, 160))
+            continue
+        # Which of the sequence's own metas does this partial return carry?  An origin in the return's own
+        # block adds the *pending* buffer (all metas in front of the failing element); otherwise only what was
+        # flushed when the last element matched.  The return is a defect exactly when some bundled grammar
+        # makes that prefix unbalanced (decided on the grammar graphs), so the obligation is the pair
+        # (engine return, grammars that reach it).
+        block = getattr(r, "_parent", None)
+        pending = [o for o in own if o.stmt is None or o.stmt is r or getattr(o.stmt, "_parent", None) is block]
+        mode = "buffer" if pending else "flushed"
+        wrapped = any(isinstance(c, ast.Call) and last_attr(c) == "wrap" for c in ast.walk(r.value))
+        n_seq, hazards = _partial_prefix_hazards(g, kinds, mode, include_bracketed=wrapped or forward)
+        chk.count(f"R03b.non_strict_sequences_examined.{mode}", n_seq)
+        chk.count(f"R03b.unbalanced_prefix_sites.{mode}", len(hazards))
+        chk.sample({"rule": "R03b", "return": f"{SEQ}:{r.lineno}", "mode": mode, "wrapped": wrapped, "sequences_examined": n_seq, "hazards": hazards[:8]})
+        what = (
+            "adds the metas still pending in the buffer, i.e. every own meta in front of the required element that found nothing"
+            if mode == "buffer" else
+            "keeps the metas flushed when the last element matched, i.e. the own metas in front of a matched element while a later required element fails"
+        )
+        ex = "; ".join(
+            f"{h['dialect']} {h['owner']}: net {h['net']:+d} in front of {h['element']} ({h['parse_mode']}, {h['assignment']})"
+            + (f" [also {len(h['also'])} more dialect(s)]" if h["also"] else "")
+            for h in hazards[:4]
+        )
         chk.require(
-            not own, "R03b", r,
-            "Sequence.match gives up half-way (greedy parse modes) but the returned match carries this sequence's own "
-            f"metas ({'; '.join(sorted({short(o.expr, 70) + ' @' + str(getattr(o.stmt, 'lineno', '?')) for o in own}))}): "
-            "an Indent whose Dedent sits behind the element that failed is emitted alone, so the leaf balance of the tree no "
-            "longer returns to zero (e.g. `SELECT` alone: +1)",
+            not hazards, "R03b", r,
+            f"Sequence.match gives up half-way (greedy parse modes) and the returned match {what} "
+            f"({'; '.join(sorted({short(o.expr, 70) + ' @' + str(getattr(o.stmt, 'lineno', '?')) for o in own}))}). "
+            f"In {len(hazards)} grammar sequence(s) of the bundled dialects that prefix is unbalanced: {ex}. An Indent whose Dedent sits "
+            "behind the element that failed is emitted alone, so the leaf balance of the tree no longer returns to zero",
+            detail=f"partial return ({mode}) emits no unbalanced prefix of own metas: {short(r, 110)}",
+            extra={"mode": mode, "hazards": hazards[:40]},
         )
     # the completed return flushes what is left in the buffer
     for r in after:
@@ -589,10 +678,11 @@ def run(chk) -> None:
     repo = chk.repo
     chk.rule("R03a", "for every dialect, segment class and assignment of the indentation keys below the class, the Indent/Dedent metas of a completed match sum to zero (abstract interpretation of the expanded grammar graph); the engine's own bracket inserts are balanced pairs")
     chk.rule("R03b", "Sequence.match returns its own buffered metas only from the completed return after the element loop, never from a partial return inside the loop")
-    r03b(chk, repo)
     in_selftest = getattr(chk, "in_selftest", False)
     g = load_grammar(repo, cache=not in_selftest, rebuild=(chk.tier == "thorough" and not in_selftest))
     chk.note(f"grammar front-end: {len(g)} dialects, {g.n_nodes} nodes ({'cache' if g.from_cache else 'rebuilt'}).")
+    forward, _ = bracketed_forwards_content(repo)
+    r03b(chk, repo, g, Kinds(g), forward)
     r03a(chk, repo, g)
 
 
@@ -640,6 +730,14 @@ VARIANTS = [
         "sequence-unstarted-return-carries-buffer", SEQ,
         "                        matched_slice=slice(start_idx, max_idx),\n                        matched_class=UnparsableSegment,\n                        segment_kwargs={\n                            \"expected\": (\n                                f\"{elem} to start sequence.",
         "                        matched_slice=slice(start_idx, max_idx),\n                        matched_class=UnparsableSegment,\n                        insert_segments=tuple((start_idx, meta) for meta in meta_buffer),\n                        segment_kwargs={\n                            \"expected\": (\n                                f\"{elem} to start sequence.",
-        "R03b", "matched_class=UnparsableSegment, insert_segments=tuple", "a third partial return starts to carry the pending metas",
+        "R03b", "matched_class=UnparsableSegment", "a third partial return starts to carry the pending metas",
+    ),
+    Variant(
+        "ansi-select-indent-before-modifier", ANSI,
+        "        \"SELECT\",\n        Ref(\"SelectClauseModifierSegment\", optional=True),\n        Indent,\n        Delimited(\n            Ref(\"SelectClauseElementSegment\"),\n            allow_trailing=True,\n        ),\n        Dedent,\n",
+        "        \"SELECT\",\n        Indent,\n        Ref(\"SelectClauseModifierSegment\", optional=True),\n        Delimited(\n            Ref(\"SelectClauseElementSegment\"),\n            allow_trailing=True,\n        ),\n        Dedent,\n",
+        "R03b", "partial return (flushed)",
+        "a greedy grammar in which an element matches behind the Indent and a later required one can fail (`SELECT DISTINCT ,`): the "
+        "element-failed return, harmless for today's grammars, now emits a lone Indent",
     ),
 ]
